@@ -48,3 +48,8 @@ chk("C03", "model_checking",
     "Every honest block of the search (proposed/empty, with receipts, identity-update, snapshot, ceremony-period, epoch-finishing) x ~70 header operators (bit flips, +-1, nil/zero, another block's value, time-window violations, foreign proposer keys, every persistent flag bit, unknown upgrade) x body edits (drop/duplicate/swap/append foreign-epoch or unaffordable tx, with and without recomputed commitments). A tampered block must be rejected unless the building path derived from ProposeBlock reproduces it; after every rejection the validator's database image, head, tree versions and working roots are unchanged; the honest original is inserted afterwards.",
     "The proposer's free choices (time inside the window, offline flags, upgrade bits, absent fee rate, VRF proof randomness) are not tampered with; CIDs via memoryIpfs.",
     "DESIGN.md 5/C03", "chainmc")
+chk("C01", "model_checking",
+    "explicit-state BFS over real block transitions; per transition exhaustive (deviation-bounded) enumeration of map/set iteration orders at instrumented choice points, host time zones, wall clocks and node histories; differential byte comparison",
+    "The maporder overlay turns every range over a map and every golang-set iteration in the state-transition packages (85 sites) into an explicit choice point. For every transition the block is re-applied on fresh replicas under every order strategy at every site that fired (n<=4: all n! orders; else reverse/rotations/transpositions; thorough: pairs of sites), in 6 host time zones, at 2 later wall clocks, and on replicas with different histories (never restarted, protocol/full.go-style long-lived check state, reorged from an empty/proposed sibling, speculative fork validation while holding the sibling, proposer-warmed caches); results must be byte-identical (roots, global parameters, identity diff, receipts, database image). GetNextValidationTime is enumerated separately over sizes x times x flags x zones.",
+    "memoryIpfs CIDs; lottery goroutine pinned to inline; orders needing >=3 simultaneously deviating sites outside the bound; epoch results with participants come from C17's driver.",
+    "DESIGN.md 5/C01", "chainmc+maporder")
